@@ -380,10 +380,77 @@ def windowOld (s : Srv) (to : Tok) (frm : Frm) (b : Body) (es : List Env) : Out 
     -- `Set(tree)` was there, the flush was not
     deliverIn (if creating s2 to then { s2 with slot := upd s2.slot t .present, armed := upd s2.armed t false } else s2) to frm b
 
+/-! ### Handlers held at the same time (three-way and wider interleavings)
+
+`window` / `rwindow` hold ONE message while envelopes are handled to their end.  The general form: any number of
+protocol messages are held at their hook points — `found`: past the tree lookup (`getAndRefresh` done), before
+`transmitMux` (hook `tm.found`); `missed`: parked, tree found neither stored nor requested, before `Register` (hook
+`rt.unregistered`) — and go on in ANY order, interleaved with envelopes and with the cleaning routine's removal of a
+tree nobody uses. -/
+
+inductive HKind where | found | missed deriving DecidableEq, Repr
+
+structure Held where
+  kind : HKind
+  to : Tok
+  frm : Frm
+  b : Body
+  deriving Repr
+
+inductive SEv where
+  | env (e : Env)
+  /-- a protocol message runs up to its hook point (a message that has none — undecodable, no destination token, tree
+  requested already — is handled to its end) -/
+  | hold (to : Tok) (frm : Frm) (b : Body)
+  /-- the cleaning routine removes tree `t` (only a tree no instance uses is ever scheduled) -/
+  | expire (t : TRef)
+  /-- the i-th held handler goes on to its end -/
+  | release (i : Nat)
+  deriving Repr
+
+structure SSt where
+  s : Srv := {}
+  held : List Held := []
+
+/-- `treeStorage.Register` + the tree request of `requestTree`: "never drop a tree that has been set in the meantime" -/
+def registerAsk (s : Srv) (t : TRef) : Srv :=
+  { s with slot := upd s.slot t (if s.slot t = .absent then .requested else s.slot t), asks := s.asks + 1 }
+
+def expireTree (s : Srv) (t : TRef) : Srv :=
+  if s.slot t = .present ∧ listedOn s t = false then { s with slot := upd s.slot t .absent, armed := upd s.armed t false }
+  else s
+
+def releaseHeld (s : Srv) (h : Held) : Out × Srv :=
+  match h.kind with
+  | .found => deliver s h.to h.frm h.b
+  | .missed => (.ok, registerAsk s (treeOf h.to))
+
+def sstep (x : SSt) : SEv → Out × SSt
+  | .env e => let r := process x.s e; (r.1, { x with s := r.2 })
+  | .hold to frm b =>
+    let t := treeOf to
+    if b = .garbage ∨ to = .none ∨ x.s.slot t = .requested then
+      let r := process x.s (.proto to frm b); (r.1, { x with s := r.2 })
+    else if x.s.slot t = .present then
+      (.ok, { s := { x.s with armed := upd x.s.armed t false }, held := x.held ++ [⟨.found, to, frm, b⟩] })
+    else
+      (.ok, { s := { x.s with armed := upd x.s.armed t false, parked := upd x.s.parked t (x.s.parked t ++ [(to, frm, b)]) },
+              held := x.held ++ [⟨.missed, to, frm, b⟩] })
+  | .expire t => (.ok, { x with s := expireTree x.s t })
+  | .release i =>
+    match x.held[i]? with
+    | none => (.ignored, x)
+    | some h => let r := releaseHeld x.s h; (r.1, { s := r.2, held := x.held.eraseIdx i })
+
+def srun (x : SSt) : List SEv → SSt
+  | [] => x
+  | e :: es => srun (sstep x e).2 es
+
 namespace Drv
 
 structure State where
   s : Srv := {}
+  held : List Held := []
 
 def init : State := {}
 
@@ -496,22 +563,43 @@ def step (st : State) (toks : List String) : State × String :=
   | ["state", "idle", _] => ({ s := {} }, "ok")
   | ["state", "midrun", _] => ({ s := { run := true, handed := 1, delivered := 1 } }, "ok")
   | ["state", "afterdone", _] => ({ s := { doneMark := true, handed := 1, delivered := 1 } }, "ok")
+  -- `hold <to> <from> <body>`: the message runs up to its hook point and waits there (reply: the state, `held=<n>`)
+  | ["hold", t, f, b] =>
+    match tok t, frm f, body b with
+    | some t, some f, some b =>
+      let r := sstep { s := st.s, held := st.held } (.hold t f b)
+      ({ s := r.2.s, held := r.2.held }, obs r.1 r.2.s ++ s!" held={r.2.held.length}")
+    | _, _, _ => (st, "bad-op")
+  | ["expire", t] =>
+    match tref t with
+    | some t =>
+      let r := sstep { s := st.s, held := st.held } (.expire t)
+      ({ s := r.2.s, held := r.2.held }, obs r.1 r.2.s ++ s!" held={r.2.held.length}")
+    | none => (st, "bad-op")
+  | ["release", i] =>
+    match i.toNat? with
+    | some i =>
+      if i < st.held.length then
+        let r := sstep { s := st.s, held := st.held } (.release i)
+        ({ s := r.2.s, held := r.2.held }, obs r.1 r.2.s ++ s!" held={r.2.held.length}")
+      else (st, "bad-op")
+    | none => (st, "bad-op")
   | ["storm", n] =>
     match n.toNat? with
-    | some n => let x := runEnvs st.s (stormEnvs n); ({ s := x }, obs .ok x)
+    | some n => let x := runEnvs st.s (stormEnvs n); ({ st with s := x }, obs .ok x)
     | none => (st, "bad-op")
   | "rwindow" :: t :: f :: b :: rest =>
     match tok t, frm f, body b, (splitBar rest).bind (·.mapM parse) with
-    | some t, some f, some b, some es => let r := rwindow st.s t f b es; ({ s := r.2 }, obs r.1 r.2)
+    | some t, some f, some b, some es => let r := rwindow st.s t f b es; ({ st with s := r.2 }, obs r.1 r.2)
     | _, _, _, _ => (st, "bad-op")
   | "window" :: t :: f :: b :: rest =>
     -- `window <to> <from> <body> | <envelope> | <envelope> …`
     match tok t, frm f, body b, (splitBar rest).bind (·.mapM parse) with
-    | some t, some f, some b, some es => let r := window st.s t f b es; ({ s := r.2 }, obs r.1 r.2)
+    | some t, some f, some b, some es => let r := window st.s t f b es; ({ st with s := r.2 }, obs r.1 r.2)
     | _, _, _, _ => (st, "bad-op")
   | _ =>
     match parse toks with
-    | some e => let r := process st.s e; ({ s := r.2 }, obs r.1 r.2)
+    | some e => let r := process st.s e; ({ st with s := r.2 }, obs r.1 r.2)
     | none => (st, "bad-op")
 
 end Drv
